@@ -191,6 +191,11 @@ Theorem c13_decode_encode_apply_delta : forall s i h orig,
 Proof. exact decode_encode_apply_delta. Qed.
 Print Assumptions c13_decode_encode_apply_delta.
 
+Theorem c13_decode_encode_fence : forall h t,
+  h <= 65535 -> u64_ok t -> decodeCommand (encodeEnterFence h t) = DecFence h t.
+Proof. exact decode_encode_fence. Qed.
+Print Assumptions c13_decode_encode_fence.
+
 Theorem c13_decode_encode_outbox : forall cleanup h s t i,
   h <= 65535 -> u64_ok s -> u64_ok t -> u64_ok i ->
   decodeCommand (encodeMigrationOutbox cleanup h s t i) = if cleanup then DecCleanup h s t i else DecAck h s t i.
